@@ -235,18 +235,27 @@ func refEval(e *Expr, env *ref.Env) (ref.Value, error, bool) {
 }
 
 // observeAll compares every live handle with its model.
-func observeAll(g *gens, hs []value.Value, ms []ref.Value, when string) string {
+func observeAll(g *gens, hs []value.Value, ms []ref.Value, when string, turn int) string {
 	for i, h := range hs {
-		got := progs.Observe(h, nil)
-		want := progs.Outcome{Val: ms[i]}
 		if l, ok := ms[i].(*ref.List); ok && l.Err != nil {
 			continue
 		}
-		if m := progs.Compare(want, got, 0); m != "" {
-			return fmt.Sprintf("%s: handle %d changed: %s", when, i, m)
-		}
-		// size(), string() and '=' against a freshly built literal of the model
-		for _, ob := range []string{"a.size()", "a.string()", "a = b", "b = a"} {
+		// size(), string() and '=' against a freshly built literal of the model; which of
+		// them sees a handle first (before anything has iterated it) rotates, and the
+		// observers in front of the full read run again behind it
+		observers := []string{"a.size()", "a.string()", "a = b", "b = a"}
+		r := (turn + i) % len(observers)
+		observers = append(append([]string{}, observers[r:]...), observers[:r]...)
+		observers = append(observers, "", observers[0], observers[1], observers[2], observers[3])
+		for _, ob := range observers {
+			if ob == "" {
+				got := progs.Observe(h, nil)
+				want := progs.Outcome{Val: ms[i]}
+				if m := progs.Compare(want, got, 0); m != "" {
+					return fmt.Sprintf("%s: handle %d changed: %s", when, i, m)
+				}
+				continue
+			}
 			f, err := g.fn(ob)
 			if err != nil {
 				return "harness: " + err.Error()
@@ -409,7 +418,7 @@ func check(c Case) (string, info) {
 			inf.classes["partial_consumption_or_observation"] = true
 		}
 		inf.classes["op_"+s.Op] = true
-		if m := observeAll(g, hs, ms, when); m != "" {
+		if m := observeAll(g, hs, ms, when, sn); m != "" {
 			return m, inf
 		}
 	}
